@@ -40,7 +40,7 @@ PARTIAL = ['C02_parse_unparse_partial / C02_items_simulation_partial / C02_white
            '(e6) a comment that ends with the input, a paragraph break followed by indentation, (e7) verbatim: \\verb<c>text<c> and '
            'the verbatim environments (verbatim; lstlisting with its optional argument written or absent), the verbatim argument '
            'kind of custom signatures. '
-           'NOT covered by any theorem (only by the differential correspondence and the structure oracle): ' + """paragraph-break whitespace in a context without the paragraph specials, a comment in front of a delimited / star argument that is written (comments in front of mandatory arguments are covered), a delimited argument written directly (not inside braces) in the body of another delimited argument"""]
+           'NOT covered by any theorem (only by the differential correspondence and the structure oracle): ' + """a delimited argument written directly (not inside braces) in the body of another delimited argument, a whitespace run with two or more newlines in a context without the paragraph specials (a character token there), a paragraph break as the single-token argument of a macro"""]
 REFUTED = []
 CASE_TIMEOUT = 10.0
 case_from_desc = None
